@@ -61,6 +61,10 @@ type CrashSpec struct {
 	MemTable        int64 `json:"memtable"`
 	// SeparateValueDir puts the value log into <dir>/vdir1 (its own directory lock and directory syncs)
 	SeparateValueDir bool `json:"separate_value_dir,omitempty"`
+	// BaseTableSize > 0 overrides the table size of the levels below 0 (tiny: one compaction writes
+	// many tables, i.e. one long MANIFEST record); L0Tables > 0 overrides NumLevelZeroTables
+	BaseTableSize int64 `json:"base_table_size,omitempty"`
+	L0Tables      int   `json:"l0_tables,omitempty"`
 }
 
 func (s *CrashSpec) options() badger.Options {
@@ -77,6 +81,14 @@ func (s *CrashSpec) options() badger.Options {
 		o.MemTableSize = s.MemTable
 	}
 	o.ValueLogMaxEntries = 50
+	if s.BaseTableSize > 0 {
+		o.BaseTableSize = s.BaseTableSize
+		o.ValueThreshold = 1 << 10 // values stay in the tables, so the tables are as big as the memtables
+	}
+	if s.L0Tables > 0 {
+		o.NumLevelZeroTables = s.L0Tables
+		o.NumLevelZeroTablesStall = s.L0Tables + 10
+	}
 	if s.SeparateValueDir && !o.InMemory {
 		o.ValueDir = filepath.Join(s.Dir, "vdir1")
 		_ = os.MkdirAll(o.ValueDir, 0o755)
